@@ -116,12 +116,32 @@ fn sig_of(d: &XmlDocument) -> String {
 pub fn canon_doc(d: &XmlDocument) -> Result<String, String> {
     guarded(|| {
         let mut out = String::new();
-        canon_children(&d.as_node(), &mut out, 0);
+        canon_children(&d.as_node(), &mut out, 0, false);
         out
     })
 }
 
-fn canon_children(n: &XmlNode, out: &mut String, depth: usize) {
+/// The same with element and attribute names expanded to `{namespace}local` (clisim).
+pub fn canon_doc_ns(d: &XmlDocument) -> Result<String, String> {
+    guarded(|| {
+        let mut out = String::new();
+        canon_children(&d.as_node(), &mut out, 0, true);
+        out
+    })
+}
+
+fn expanded<T: xml_dom::AsExpandedName>(n: &T, fallback: String) -> String {
+    // the library reports the pseudo-prefix "xmlns" for unprefixed names
+    match n.as_expanded_name() {
+        Ok(Some((local, _, Some(uri)))) if !uri.is_empty() => format!("{{{}}}{}", uri, local),
+        Ok(Some((local, Some(p), _))) if p != "xmlns" => format!("{{!unbound}}{}", local),
+        Ok(Some((local, _, _))) => local,
+        Ok(None) => fallback,
+        Err(_) => format!("{{!unbound}}{}", fallback),
+    }
+}
+
+fn canon_children(n: &XmlNode, out: &mut String, depth: usize, ns: bool) {
     if depth > 200 {
         out.push_str("<TOO-DEEP>");
         return;
@@ -163,11 +183,13 @@ fn canon_children(n: &XmlNode, out: &mut String, depth: usize) {
             }
             XmlNode::Element(e) => {
                 flush(&mut run, out);
-                out.push_str(&format!("E({:?}", c.node_name()));
+                let ename = if ns { expanded(e, c.node_name()) } else { c.node_name() };
+                out.push_str(&format!("E({:?}", ename));
                 let mut attrs: Vec<(String, String)> = vec![];
                 if let Some(m) = e.attributes() {
                     for a in m.iter() {
-                        attrs.push((a.name(), a.value().unwrap_or_else(|e| format!("<ERR {}>", e))));
+                        let aname = if ns { expanded(&a, a.name()) } else { a.name() };
+                        attrs.push((aname, a.value().unwrap_or_else(|e| format!("<ERR {}>", e))));
                     }
                 }
                 attrs.sort();
@@ -175,7 +197,7 @@ fn canon_children(n: &XmlNode, out: &mut String, depth: usize) {
                     out.push_str(&format!(" {}={:?}", k, v));
                 }
                 out.push('[');
-                canon_children(&c, out, depth + 1);
+                canon_children(&c, out, depth + 1, ns);
                 out.push_str("])");
             }
             other => {
